@@ -88,7 +88,13 @@ func decorate(r *rand.Rand, index int, s reconlib.Scenario) reconlib.Scenario {
 	if r.Intn(4) == 0 {
 		s.CloseFails = "broken" // closing a transport whose link is already broken reports an error
 	}
-	if r.Intn(5) == 0 {
+	plain := len(s.Faults) == 1 && s.SlowLog == ""
+	for _, f := range s.Faults {
+		if len(f.NextLink) > 0 || f.CutResumeOf > 0 || f.RefuseResumeOf > 0 {
+			plain = false // every further silent failure would add a full minute of detection time to the history
+		}
+	}
+	if r.Intn(5) == 0 && plain {
 		// slow keepalive: unless the transport reports the failure itself, a request of the application is the first to
 		// notice the outage (the stream still has to be resumed on the connection that request brings about)
 		s.PingMs = 30000
